@@ -287,6 +287,46 @@ func renderJSON(c *wire.Case, r *wire.Run, ms engine.Matches) {
 		}()
 		r.FJSON = []byte(ms.FormattedJson())
 	}()
+	if c.ConcRender > 0 && r.JSONErr == nil && r.FJSONErr == nil && len(ms) > 0 {
+		// ONE result list rendered by several goroutines at the same time (a server answering two requests from one
+		// cached result): every rendering is the text the list gives when rendered alone
+		var wg sync.WaitGroup
+		var mu sync.Mutex
+		bad := ""
+		for g := 0; g < c.ConcRender; g++ {
+			wg.Add(1)
+			go func(g int) {
+				defer wg.Done()
+				defer func() {
+					if rec := recover(); rec != nil {
+						mu.Lock()
+						bad = fmt.Sprint("a concurrent rendering panicked: ", rec)
+						mu.Unlock()
+					}
+				}()
+				for k := 0; k < 12; k++ {
+					var got, want string
+					if (g+k)%2 == 0 {
+						got, want = ms.Json(), string(r.JSON)
+					} else {
+						got, want = ms.FormattedJson(), string(r.FJSON)
+					}
+					if got != want {
+						mu.Lock()
+						if bad == "" {
+							bad = fmt.Sprintf("rendered next to %d other renderings of the same list: %d bytes instead of %d", c.ConcRender-1, len(got), len(want))
+						}
+						mu.Unlock()
+						return
+					}
+				}
+			}(g)
+		}
+		wg.Wait()
+		if bad != "" {
+			r.ConcRenderMismatch = bad
+		}
+	}
 }
 
 func opRun(c *wire.Case, res *wire.Result) {
